@@ -111,13 +111,13 @@ type step struct {
 	A     string   `json:"a"`
 	C     int      `json:"c"`
 	RF    bool     `json:"rf"`
-	E     string   `json:"e"`   // fin | ok | fail
-	In    [][3]int `json:"in"`  // value handed to f when e = fin
-	Val   [][3]int `json:"val"` // Get afterwards
-	Mir   [][3]int `json:"mir"` // secondary store afterwards
-	Be    string   `json:"be"`  // setup record only
-	Sec   string   `json:"sec"`
-	Limit int      `json:"limit"`
+	E     string   `json:"e"`            // fin | ok | fail
+	In    [][3]int `json:"in"`           // value handed to f when e = fin
+	Val   [][3]int `json:"val"`          // Get afterwards
+	Mir   [][3]int `json:"mir"`          // secondary store afterwards
+	Be    string   `json:"be,omitempty"` // setup record only
+	Sec   string   `json:"sec,omitempty"`
+	Limit int      `json:"limit,omitempty"`
 }
 
 func norm(t [][3]int) [][3]int {
